@@ -29,6 +29,12 @@ class FakeTransport(asyncio.Transport):
         self.pause_script = []
         self.paused_writing = False
         self.write_hook = None        # optional callable(data) run inside write()
+        # a slow peer: bytes written stay in the send buffer for `drain_delay` (virtual) seconds
+        # before they are "on the wire" (self.out); close() flushes the buffer before the
+        # connection is lost, abort() discards it - as real asyncio transports do
+        self.drain_delay = None
+        self.buffer = []
+        self.discarded = []
 
     # ---- asyncio.Transport API used by aiorpcx
     def get_extra_info(self, name, default=None):
@@ -41,7 +47,11 @@ class FakeTransport(asyncio.Transport):
         if self.closing:
             self.log.append((self.loop.time(), 'write-after-close', bytes(data)))
             return
-        self.out.append(bytes(data))
+        if self.drain_delay:
+            self.buffer.append(bytes(data))
+            self.loop.call_later(self.drain_delay, self._drain_one)
+        else:
+            self.out.append(bytes(data))
         self.log.append((self.loop.time(), 'write', bytes(data), self.paused_writing))
         if self.write_hook:
             self.write_hook(data)
@@ -51,9 +61,22 @@ class FakeTransport(asyncio.Transport):
                 self.log.append((self.loop.time(), 'pause_writing'))
                 self.proto.pause_writing()
 
-    def _lose(self):
-        if not self.closing:
-            self.closing = True
+    def _drain_one(self):
+        if self.buffer:
+            self.out.append(self.buffer.pop(0))
+        if self.closing and not self.buffer and not self.lost_delivered:
+            self.loop.call_soon(self._deliver_lost)
+
+    def _lose(self, flush=False):
+        """flush=True: graceful close - the connection is lost once the buffer has drained"""
+        first = not self.closing
+        self.closing = True
+        if flush and self.buffer:
+            return
+        if not flush and self.buffer:
+            self.discarded += self.buffer
+            self.buffer = []
+        if first or not self.lost_delivered:
             self.loop.call_soon(self._deliver_lost)
 
     def _deliver_lost(self):
@@ -64,7 +87,7 @@ class FakeTransport(asyncio.Transport):
 
     def close(self):
         self.log.append((self.loop.time(), 'close'))
-        self._lose()
+        self._lose(flush=True)
 
     def abort(self):
         self.log.append((self.loop.time(), 'abort'))
